@@ -55,6 +55,56 @@ def header_write_rule(ctx, w):
         ctx.ok(rule, f"{rule}:scan", "", f"{n_ins} header fields inserted, none appended")
 
 
+def optional_header_rule(ctx, w):
+    """(thorough tier.) A header field of type Option<_> is written only when it is Some. If the same conversion also sets that header
+    unconditionally (the `Content-Type: application/json` the builder pre-sets), an absent value is received as that default: `content_type: None`
+    comes back as Some("application/json"). So: a header name written under a `field is Some` test is not written anywhere else in the function."""
+    rule = "C16.optional-header"
+    ctx.rule(rule, "generated try_into_http_request / try_into_http_response: a header that is written only when its Option field is Some is not also pre-set "
+                   "unconditionally in the same conversion (None must stay absent on the wire)")
+    n_opt, bad = 0, []
+    for g in w.all_fns():
+        if "body" not in g or not re.search(r"::(try_into_http_response|try_into_http_request)$", g["path"]):
+            continue
+        body = g["body"]
+        defs_ = PC.roots(body)
+        cfg = M.Cfg(body)
+        writes = []          # (header name, conditional on an Option field?, line)
+        for bi, c in M.calls(body):
+            cn = M.callee_name(c)
+            last = cn.rsplit("::", 1)[-1]
+            if ("header::map::HeaderMap" in cn and last in ("insert", "try_insert", "append", "try_append")) or (cn.endswith("Builder::header") and ("response::Builder" in cn or "request::Builder" in cn)):
+                if len(c["args"]) < 2:
+                    continue
+                h = PC.expr(body, defs_, c["args"][1])
+                if h[0] not in ("const?", "const"):
+                    continue
+                def self_field(e):          # `self.f`, possibly behind Option::as_ref / as_deref
+                    if e[0] == "call" and re.search(r"Option::<T>::(as_ref|as_deref|as_mut)$", e[1]) and e[2]:
+                        e = e[2][0]
+                    return e[0] == "field" and list(e[1]) == ["arg", 1]
+                opt = any(cond[0] == "switch" and truth and cond[1][0] == "discr" and self_field(cond[1][1]) and tuple(cond[2]) == (1,)
+                          for cond, truth in PC.dominating_guards(cfg, body, defs_, bi))
+                writes.append((str(h[1]), opt, c["line"]))
+        for h in {h for h, opt, _ in writes if opt}:
+            n_opt += 1
+            others = [ln for h2, opt2, ln in writes if h2 == h and not opt2]
+            if others:
+                bad.append((g, h, others[0]))
+    ctx.floor("optional header fields of generated conversions", n_opt, 10)
+    seen = set()
+    for g, h, line in bad:
+        k = PCkey(g["path"])[-160:]
+        if (k, h) in seen:
+            continue
+        seen.add((k, h))
+        ctx.violation(rule, f"{rule}:{k}:{h.rsplit('::', 1)[-1]}", w.where(g, line),
+                      f"{g['path']} sets {h.rsplit('::', 1)[-1]} unconditionally and writes the Option field only when it is Some: with None the receiving side "
+                      f"reads the pre-set value (e.g. content_type None -> Some(\"application/json\")), the field does not survive the round trip")
+    if not bad:
+        ctx.ok(rule, f"{rule}:scan", "", f"{n_opt} optional header fields, none of them pre-set")
+
+
 def version_literal_rule(ctx, w):
     """The `metadata!` macro turns the version literals of an endpoint's history (`1.14 => "/path"`) into MatrixVersion values through
     MatrixVersion::from_parts; into_parts is its inverse. A wrong table entry records a path under another version, so select_path offers it to
@@ -499,6 +549,7 @@ def run(ctx):
     version_literal_rule(ctx, w)
     if ctx.tier == "thorough":
         header_write_rule(ctx, w)
+        optional_header_rule(ctx, w)
         # query / body carrier structs of the API crates: an omitted field must be read back as the omitted value
         from . import C18 as _C18
         _C18.defaults_rule(ctx, w, "C16.defaults", {}, floor=1, only=lambda p_: "ruma_common::" not in p_.split(" for ", 1)[-1][:14])
